@@ -160,7 +160,32 @@ def mc(ctx, mode):
         raise C.ToolError("vacuity gate: MC %s never took %s (exported %d behaviours)" % (cf, sorted(missing), len(beh)))
     info = {"cfg": cf, "distinct": r["distinct"], "generated": r["generated"], "wall_s": r["wall_s"], "exported": len(beh),
             "ops_taken_in_exported": taken, "model_level_signatures": sigs, "invariants_violated": r["violated"]}
+    info["anti_vacuity"] = asfound(ctx, mode)
     return beh, info
+
+
+# the defect each check found in the code as it was (fixed in /repo): with the corresponding switch of the I-level model
+# back on, TLC must find the old signature again
+AS_FOUND = {
+    "refs": ("BUG_CREATE_LEAK", r'C08\|create-failed\|(stale-number-resolves|inode-objects-surplus|refcount|inode-not-released)'),
+    "res": ("BUG_PROBE_LEAK", r'C15\|mc\|any\|fds'),
+    "dir": ("BUG_DOTS", r'C16\|pt\|empty-before-end\|dots-fill-buffer'),
+}
+
+
+def asfound(ctx, mode):
+    """anti-vacuity self-test; nothing of this run is counted as evidence of the property"""
+    switch, sig = AS_FOUND[mode]
+    cf = "MC_PtRefs_%s_asfound.cfg" % mode
+    r = C.tlc_mc(ctx, "MC_PtRefs", cfg=cf, workers=4, timeout=600, coverage=False, must_cover=False, expect_violation=True)
+    ctx.states -= r["distinct"]
+    ctx.transitions -= r["generated"]
+    ctx.mc_runs.pop()
+    found = sorted({m.group(0) for m in re.finditer(sig, r["output"])})
+    if "NoViolStrict" not in r["violated"] or not found:
+        C.log(r["output"][-2000:])
+        raise C.ToolError("anti-vacuity: the I-level model with %s = TRUE (%s) no longer yields the signature %s" % (switch, cf, sig))
+    return {"cfg": cf, "switch": switch, "invariant_violated": "NoViolStrict", "signatures_found": found, "wall_s": r["wall_s"]}
 
 
 # ------------------------------------------------------------------------------------------------
@@ -437,8 +462,10 @@ def run_c16(ctx):
                 r["bytes"] = 0
                 done.append("drop")
         return "names of two entries of a later reply swapped; one later non-empty reply logged as empty: %s" % done
-    big = next((i for i, r in enumerate(rows) if r["e"] == "Cfg" and i + 60 < len(rows) and sum(1 for x in rows[i:i + 400] if x["e"] == "Dir" and len(x["ents"]) >= 2) > 5), 0)
-    end = next((j for j in range(big + 1, len(rows)) if rows[j]["e"] == "Cfg"), len(rows))
+    # the segment with the most multi-entry replies late enough to be resumptions (not the learning pass)
+    starts = [i for i, r in enumerate(rows) if r["e"] == "Cfg"] + [len(rows)]
+    score = lambda a, b: sum(1 for x in rows[a:min(b, a + 3000)] if x["e"] == "Dir" and len(x["ents"]) >= 2 and x["i"] > 40)
+    big, end = max(zip(starts, starts[1:]), key=lambda ab: score(*ab))
     demo = binding(ctx, rows[big:end], mut, "C16|", n=3000)
     vias = {}
     shapes = set()
